@@ -232,7 +232,9 @@ class MPS(DNAS):
         :return: the precision-assignement found by the NAS
         :rtype: Dict[str, Dict[str, Any]]
         """
+        seed_training = self.seed.training
         mod, _, _ = convert(self.seed, self._input_example, 'export')
+        self.seed.train(seed_training)
         return mod
 
     def summary(self) -> Dict[str, Dict[str, Any]]:
